@@ -104,6 +104,9 @@ func inputMessages(ctxID, reqID []byte) []inputCase {
 	pricingDom := []string{`{"price":"0stake"}`, `{"price":"1stake"}`, `{"price":"1.5stake"}`, `{"price":"7foo"}`, hugePrice, pricingText("p2v"), pricingText("p1t"),
 		`{"price":"1stake","promotions_by_time":[{"start_time":"0000-01-01T00:00:00Z","end_time":"0000-06-01T00:00:00Z","discount":"0.5"}]}`,
 		`{"price":"1stake","promotions_by_time":[{"start_time":"9999-01-01T00:00:00Z","end_time":"9999-12-31T23:59:59Z","discount":"0.5"}]}`,
+		// year 1 / year 9999 in the timestamp's own zone, outside in UTC
+		`{"price":"1stake","promotions_by_time":[{"start_time":"0001-01-01T00:00:00+14:00","end_time":"0001-06-01T00:00:00Z","discount":"0.5"}]}`,
+		`{"price":"1stake","promotions_by_time":[{"start_time":"9999-01-01T00:00:00Z","end_time":"9999-12-31T23:59:59-14:00","discount":"0.5"}]}`,
 		`{"price":"1stake","promotions_by_volume":[{"volume":18446744073709551615,"discount":"0.5"}]}`,
 		`{"price":"1stake","promotions_by_volume":[{"volume":1,"discount":"0.5"},{"volume":1,"discount":"0.4"}]}`}
 	svcDom := []string{"a", "zz", long70}
